@@ -13,15 +13,23 @@ LEAN_TARGETS = ["CogentModel.Props.C04"]
 DRIVER = "drv_c04"
 TRUSTED = [
     "hand-written model lean/CogentModel/Model/FeatureView.lean of Sequence.get_features / make_feature / "
-    "_spans_from_locations / FeatureMap.nucleic_reversed / Feature.get_slice (one model: old and new Sequence carry the "
-    "same code; both are run), on top of C01's Model/View.lean",
+    "_spans_from_locations / FeatureMap.nucleic_reversed / Feature.get_slice positions (one model: old and new Sequence "
+    "carry the same code; both are run), Model/FeatureSeq.lean (get_slice residues on C01's Sequence wrapper) and "
+    "Model/FeatureProject.lean (Aligned.make_feature = inverse()[feature.map], on C08's FeatureMap model), on top of "
+    "C01's Model/View.lean",
     "Spec/FeatureView.lean (absolute plus-strand positions of spans restricted to the retained segment), validated "
     "against the Python oracle each run",
+    "C08's FeatureMap model Model/FMap.lean (inverse, __getitem__) is tied to location.py by C08's own correspondence; "
+    "C04 additionally compares FMap.project with Aligned.make_feature on generated gapped alignments",
 ]
 ASSUMPTIONS = [
     "theorems cover views with |step| = 1 (any slice / rc depth, any offset); strided views are only exercised",
+    "feature spans are as the annotation db stores them (C17 add_feature normalisation): 0 <= start < end, ordered by start",
     "which features a query returns is decided on the db hull (start/stop extremes of the spans), C17's semantics",
-    "alignment features and projection through gapped rows are exercised against a column oracle, not modelled in Lean",
+    "feature_on_view models str(self[a:b]) for an in-view span as str(self)[a:b] (C01 str_getitem); "
+    "Sequence._mapped / constructors are exercised, not modelled",
+    "projection_denotes assumes the aligned row contains every residue of the feature (true for a row of the whole "
+    "sequence); the own-row slice of alignment features is exercised against a column oracle",
     "Sequence.add_feature on a sequence with a non-zero annotation_offset is out of scope (features are loaded into "
     "the db in absolute coordinates)",
 ]
@@ -468,7 +476,8 @@ def correspondence(ctx):
         "(recorded by a delegating wrapper) for lattice / negative / None / swapped / out-of-range windows vs queryWindow; "
         "(b) the feature map (spans incl. lost spans, reversed flag) or exception class of every record the db returns "
         "on the final view vs featureOnView, and the model's slice positions vs the residues actually returned; "
-        "(c) Spec.denote vs the Python oracle. non-trivial = feature partly outside the view or on a reversed view, or "
+        "(c) Spec.denote vs the Python oracle; (d) Aligned.make_feature's projected map (spans incl. lost, parent length) "
+        "on old-style alignments with gapped rows vs FMap.project. non-trivial = feature partly outside the view or on a reversed view, or "
         "window not covering the whole view"
     )
     rng = ctx.subrng("corr")
@@ -527,6 +536,28 @@ def correspondence(ctx):
                 # (c) spec function vs oracle
                 reqs.append(("denote", dict(spans=sorted(f["spans"]), minus=f["strand"] == "-", p0=p0, p1=p1)))
                 expect.append(("denote", dict(feature=f, p0=p0, p1=p1), dict(pos=oracle_positions(f, state), comp=f["strand"] == "-"), None))
+    # (d) projection of sequence features onto alignment columns (Aligned.make_feature) vs FMap.project
+    def fm_json(m):
+        return dict(pl=int(m.parent_length), spans=[["l", int(x.length)] if x.lost else ["s", int(x.start), int(x.end), bool(x.reverse)] for x in m.spans])
+
+    for i in range(ctx.budget(60, 600)):
+        acase = gen_aln_case(rng)
+        try:
+            aln = build_aln(acase)
+        except Exception:  # noqa: BLE001
+            continue
+        for spec in acase["feats"]:
+            aligned = aln.named_seqs[spec["seqid"]]
+            mk = lambda: dict(seqid=spec["seqid"], biotype="gene", name=spec["name"], spans=[list(x) for x in spec["spans"]], strand=spec["strand"])
+            try:
+                A = aligned.map.to_feature_map()
+                annot = aligned.data.make_feature(mk())
+                real = fm_json(aligned.make_feature(mk(), aln).map)
+            except Exception as e:  # noqa: BLE001
+                real = {"err": type(e).__name__}
+                continue
+            reqs.append(("project", dict(A=fm_json(A), fm=fm_json(annot.map))))
+            expect.append(("project", dict(aln_case=acase, feature=spec), real, None))
     replies = ctx.driver.batch(reqs)
     for (kind, inp, real, extra), rep in zip(expect, replies):
         out["evaluations"] += 1
@@ -540,6 +571,12 @@ def correspondence(ctx):
                 bump(out, "window_err", real["err"])
             elif inp["window"] != [None, None]:
                 out["nontrivial"].add(("w", json.dumps(inp["case"]["ops"]), inp["case"]["text"], str(inp["window"])))
+        elif kind == "project":
+            got = None if "err" in rep else dict(pl=rep["pl"], spans=rep["spans"])
+            if got != real:
+                add_failure(out, "corr", "FMap.project model differs from Aligned.make_feature", inp, got, real, confirmed=False)
+            elif any(x[0] == "l" for x in real["spans"]) or len(real["spans"]) > 1:
+                out["nontrivial"].add(("proj", json.dumps(inp["aln_case"]["rows"]), inp["feature"]["name"]))
         elif kind == "getslice":
             if "err" in real:
                 if rep != real:
